@@ -72,6 +72,30 @@ Theorem C10_family_parsed_shape : forall S s v, family S -> parse S s = Ok v -> 
 Proof. exact parse_wf. Qed.
 Print Assumptions C10_family_parsed_shape.
 
+(* Clause 4 at string level: two accepted versions of the domain with the same canonical string
+   compare equal.  (Outside the domain it fails: 1.* and 1.*.3 share the canonical string 1.*.) *)
+Theorem C10_family_inj_partial : forall sb S s1 s2 v1 v2, family S ->
+  parse S s1 = Ok v1 -> parse S s2 = Ok v2 ->
+  c10_family_dom S v1 = true -> c10_family_dom S v2 = true ->
+  generic_canon sb v1 = generic_canon sb v2 -> generic_compare S v1 v2 = 0%Z.
+Proof.
+  intros sb S s1 s2 v1 v2 F P1 P2 D1 D2 E.
+  destruct (C10_family_reparse_partial sb S s1 v1 F P1 D1) as (w1 & Q1 & C1 & _).
+  destruct (C10_family_reparse_partial sb S s2 v2 F P2 D2) as (w2 & Q2 & C2 & _).
+  rewrite E in Q1. rewrite Q1 in Q2. inversion Q2; subst w2.
+  pose proof (C10_family_parsed_shape S s1 v1 F P1) as (S1 & X1 & _).
+  pose proof (C10_family_parsed_shape S s2 v2 F P2) as (S2 & X2 & _).
+  pose proof (C10_family_parsed_shape S _ w1 F Q1) as (S3 & X3 & _).
+  assert (F1 : fam_version S v1) by (split; auto).
+  assert (F2 : fam_version S v2) by (split; auto).
+  assert (F3 : fam_version S w1) by (split; auto).
+  pose proof (C10_family_same_canon_equal S v1 v2 w1 F1 F2 F3) as H.
+  rewrite !(compare_family S) in H by auto.
+  assert (Ok (generic_compare S v1 v2) = Ok 0%Z) as R by (apply H; f_equal; auto).
+  inversion R; auto.
+Qed.
+Print Assumptions C10_family_inj_partial.
+
 (* The full statement is false.  Witnesses: 1.*.3 (a number after the wildcard) and 1.*-a (a
    wildcard version with a prerelease) in Default, Cargo and NPM; 1.*-a in NuGet.  The canonical
    string is 1.* in each case; it parses, but to a version that compares 1 resp. -1. *)
